@@ -1,4 +1,5 @@
 pub mod c01;
+pub mod c02;
 
 use crate::report::Report;
 
@@ -30,6 +31,7 @@ pub fn run(id: &str, report: &mut Report, replay: Option<&str>) {
     });
     match id {
         "C01" => c01::run(report, replay_val.as_ref()),
+        "C02" => c02::run(report, replay_val.as_ref()),
         _ => {
             eprintln!("unknown property {}", id);
             std::process::exit(2);
